@@ -59,13 +59,82 @@ func genC12(t *rapid.T) *Case {
 	return c
 }
 
+// regParkPoints: where a registration or de-registration step can be held. The cb.*
+// points are inside the application's own callbacks (which may take arbitrarily long),
+// the others are the verif yield points between the two-level registry's steps.
+var regParkPoints = []string{"cb.affinity", "cb.open", "cb.close", "handler.reverse.betweenAdds", "handler.unregister.between", "client.close.afterTearDown"}
+
+// genC12Win: registry histories in which opens and closes are held half-way (parked)
+// while other tunnels open and close and the registry is queried.
+func genC12Win(t *rapid.T) *Case {
+	c := &Case{Prop: "c12win"}
+	c.Cfg = Config{Dir: "rev", ClientFC: "on", ServerFC: "on", HasKeyFn: rapid.IntRange(0, 5).Draw(t, "keyfn") > 0}
+	// one to three armed park points; each holds the first 1-3 goroutines that reach it
+	np := rapid.IntRange(1, 3).Draw(t, "nparks")
+	seen := map[string]bool{}
+	for i := 0; i < np; i++ {
+		pt := rapid.SampledFrom(regParkPoints).Draw(t, fmt.Sprintf("park%d", i))
+		if seen[pt] {
+			continue
+		}
+		seen[pt] = true
+		c.Yields = append(c.Yields, Yield{Point: pt, Nth: rapid.IntRange(0, 2).Draw(t, fmt.Sprintf("park%d.nth", i)),
+			Repeat: rapid.IntRange(1, 3).Draw(t, fmt.Sprintf("park%d.rep", i)), Kind: "park"})
+	}
+	keys := []string{"", "a", "a", "b"}
+	vias := []string{"all", "key:a", "key:b", "key:<nil>"}
+	n := rapid.IntRange(3, 18).Draw(t, "nops")
+	opened := 0
+	for i := 0; i < n; i++ {
+		kinds := []string{"open", "open", "rpc", "ready", "wait", "wait", "all", "unpark"}
+		if opened > 0 {
+			kinds = append(kinds, "close_handler", "close_stop", "close_ctx", "close_break", "close_break", "unpark")
+		}
+		k := rapid.SampledFrom(kinds).Draw(t, fmt.Sprintf("op%d", i))
+		op := RegOp{Kind: k}
+		switch k {
+		case "open":
+			op.Key = rapid.SampledFrom(keys).Draw(t, fmt.Sprintf("op%d.key", i))
+			opened++
+		case "close_handler", "close_stop", "close_ctx", "close_break":
+			op.Tun = rapid.IntRange(0, opened-1).Draw(t, fmt.Sprintf("op%d.tun", i))
+		case "rpc", "ready":
+			op.Via = rapid.SampledFrom(vias).Draw(t, fmt.Sprintf("op%d.via", i))
+		case "wait":
+			op.Via = rapid.SampledFrom(vias).Draw(t, fmt.Sprintf("op%d.via", i))
+			op.Ms = 1000
+		}
+		c.Reg = append(c.Reg, op)
+	}
+	// release everything, then look at every view of the registry once more
+	for i := 0; i < 4; i++ {
+		c.Reg = append(c.Reg, RegOp{Kind: "unpark"})
+	}
+	c.Reg = append(c.Reg, RegOp{Kind: "all"})
+	for _, v := range vias {
+		c.Reg = append(c.Reg, RegOp{Kind: "ready", Via: v}, RegOp{Kind: "rpc", Via: v})
+	}
+	return c
+}
+
 // runRegistry executes a registry history, one operation at a time to quiescence.
+// Closes run on their own goroutines: with an armed park point the closing call
+// itself may be the one that is held.
 func (w *World) runRegistry() {
 	type waiter struct {
 		obs  *RegObs
 		done chan error
 	}
 	var waiters []*waiter
+	cur := 0 // operation under way
+	t0 := time.Now()
+	for _, y := range w.c.Yields {
+		if y.Kind == "park" {
+			w.mu.Lock()
+			w.holdParks = true
+			w.mu.Unlock()
+		}
+	}
 	pollWaiters := func() {
 		for _, wt := range waiters {
 			if wt.obs.Returned >= 0 {
@@ -74,7 +143,33 @@ func (w *World) runRegistry() {
 			select {
 			case err := <-wt.done:
 				wt.obs.Returned = w.curStep()
+				wt.obs.RetOp = cur
 				setRegErr(wt.obs, err)
+			default:
+			}
+		}
+	}
+	type pendingRPC struct {
+		obs  *RegObs
+		rec  *OpRec
+		r    *rpcState
+		done chan struct{}
+	}
+	var rpcsPending []*pendingRPC
+	pollRPCs := func() {
+		for _, pr := range rpcsPending {
+			if pr.obs.Returned >= 0 {
+				continue
+			}
+			select {
+			case <-pr.done:
+				pr.obs.Returned = w.curStep()
+				pr.obs.Code, pr.obs.Err = pr.rec.Code, pr.rec.Err
+				w.mu.Lock()
+				if pr.r.inv != nil {
+					pr.obs.Instance = pr.r.inv.Instance
+				}
+				w.mu.Unlock()
 			default:
 			}
 		}
@@ -89,9 +184,19 @@ func (w *World) runRegistry() {
 		}
 		return w.handler.KeyAsChannel(k)
 	}
+	releaseParked := func() {
+		w.mu.Lock()
+		ps := w.parked
+		w.parked = nil
+		w.mu.Unlock()
+		for _, p := range ps {
+			close(p.ch)
+		}
+	}
 	for i, op := range w.c.Reg {
 		w.nextStep()
-		obs := &RegObs{Op: i, Kind: op.Kind, Step: w.curStep(), Returned: -1, Code: CodeNil, Instance: -1, Tunnel: -1}
+		cur = i
+		obs := &RegObs{Op: i, Kind: op.Kind, Step: w.curStep(), Returned: -1, RetOp: -1, Code: CodeNil, Instance: -1, Tunnel: -1}
 		w.tr.Reg = append(w.tr.Reg, obs)
 		switch op.Kind {
 		case "open":
@@ -107,25 +212,43 @@ func (w *World) runRegistry() {
 			if op.Tun < len(w.tunnels) {
 				t = w.tunnels[op.Tun]
 			}
+			var ch grpctunnel.TunnelChannel
+			if t != nil {
+				ch = t.ch
+			}
 			w.mu.Unlock()
 			obs.Tunnel = op.Tun
-			if t == nil || t.ch == nil {
+			if t == nil {
 				obs.Err = "no such tunnel"
 				obs.Returned = w.curStep()
 				break
 			}
-			switch op.Kind {
-			case "close_handler":
-				t.ch.Close()
-			case "close_stop":
-				t.server.rs.Stop()
-			case "close_ctx":
-				t.cancel()
-			case "close_break":
-				if t.carrier != nil {
-					t.carrier.Break(true, true)
-				}
+			kind := op.Kind
+			if kind == "close_handler" && ch == nil {
+				kind = "close_break" // the handler side has no channel to close yet
 			}
+			w.mu.Lock()
+			t.closeTrig = true
+			w.mu.Unlock()
+			go func() {
+				switch kind {
+				case "close_handler":
+					ch.Close()
+				case "close_stop":
+					t.server.rs.Stop()
+				case "close_ctx":
+					t.cancel()
+				case "close_break":
+					if t.carrier != nil {
+						t.carrier.Break(true, true)
+					} else {
+						t.cancel()
+					}
+				}
+			}()
+			obs.Returned = w.curStep()
+		case "unpark":
+			releaseParked()
 			obs.Returned = w.curStep()
 		case "rpc":
 			w.mu.Lock()
@@ -147,16 +270,9 @@ func (w *World) runRegistry() {
 			}()
 			w.settle()
 			w.drain() // step the handler's scripted operations to completion
-			select {
-			case <-done:
-				obs.Returned = w.curStep()
-				obs.Code, obs.Err = rec.Code, rec.Err
-				w.mu.Lock()
-				if r.inv != nil {
-					obs.Instance = r.inv.Instance
-				}
-				w.mu.Unlock()
-			default:
+			rpcsPending = append(rpcsPending, &pendingRPC{obs: obs, rec: rec, r: r, done: done})
+			pollRPCs()
+			if obs.Returned < 0 {
 				obs.Err = "routed RPC did not complete"
 			}
 		case "ready":
@@ -186,14 +302,39 @@ func (w *World) runRegistry() {
 			obs.Returned = w.curStep()
 		}
 		w.settle()
+		w.drain()
 		pollWaiters()
+		pollRPCs()
+		obs.VMs = time.Since(t0).Milliseconds()
 		w.mu.Lock()
 		obs.Parked = len(w.parked) > 0
+		for _, p := range w.parked {
+			obs.ParkedAt = append(obs.ParkedAt, p.point)
+		}
+		for _, t := range w.tunnels {
+			to := TunObs{OpenCbEnd: t.openCbEnd, CloseTrig: t.closeTrig}
+			if t.carrier != nil {
+				to.Started = true
+				to.HandlerDone = t.carrier.handlerDone()
+			}
+			obs.T = append(obs.T, to)
+		}
 		w.mu.Unlock()
 	}
+	// nothing stays parked past the history
+	w.mu.Lock()
+	w.holdParks = false
+	w.mu.Unlock()
+	for i := 0; i < 8; i++ {
+		releaseParked()
+		w.settle()
+		w.drain()
+	}
 	// let pending waits time out
+	cur = len(w.c.Reg)
 	w.advance(2 * time.Second)
 	pollWaiters()
+	pollRPCs()
 }
 
 func setRegErr(o *RegObs, err error) {
@@ -203,6 +344,11 @@ func setRegErr(o *RegObs, err error) {
 	}
 }
 
+// monC12 judges a registry history against a three-valued model of the set of open
+// reverse tunnels. A tunnel is IN once its open callback has returned and no close
+// has been started; it is OUT before its OpenReverseTunnel handler started and after
+// that handler returned; in between (an open or a close is under way, possibly held
+// at a park point) the registry may or may not list it and nothing is demanded of it.
 func monC12(c *Case, tr *Trace) []Violation {
 	var vs []Violation
 	add := func(class string, step int, f string, a ...any) {
@@ -214,144 +360,190 @@ func monC12(c *Case, tr *Trace) []Violation {
 	for _, p := range tr.Panics {
 		add("panic", 0, "%s", p)
 	}
-	type tun struct {
-		key  string // "<nil>" for the nil key
-		open bool
-	}
-	var model []*tun
 	keyOf := func(k string) string {
 		if !c.Cfg.HasKeyFn || k == "" {
 			return "<nil>"
 		}
 		return k
 	}
-	openSet := func(via string) []int {
-		var out []int
-		for i, t := range model {
-			if !t.open {
+	var keys []string // affinity key of tunnel i
+	for _, op := range c.Reg {
+		if op.Kind == "open" {
+			keys = append(keys, keyOf(op.Key))
+		}
+	}
+	const (
+		out = iota
+		may
+		in
+	)
+	statusAt := func(j, i int) int {
+		if j < 0 || j >= len(tr.Reg) || i >= len(tr.Reg[j].T) {
+			return out
+		}
+		t := tr.Reg[j].T[i]
+		switch {
+		case !t.Started, t.HandlerDone:
+			return out
+		case t.OpenCbEnd && !t.CloseTrig:
+			return in
+		}
+		return may
+	}
+	// status while operation j ran: certain only if the same before and after it
+	status := func(j, i int) int {
+		a, b := statusAt(j-1, i), statusAt(j, i)
+		if a == b {
+			return a
+		}
+		return may
+	}
+	sets := func(j int, via string) (must, maybe []int) {
+		for i := range keys {
+			if !(via == "all" || via == "" || "key:"+keys[i] == via) {
 				continue
 			}
-			if via == "all" || via == "" || "key:"+t.key == via {
-				out = append(out, i)
+			switch status(j, i) {
+			case in:
+				must = append(must, i)
+			case may:
+				maybe = append(maybe, i)
 			}
 		}
-		return out
+		return
+	}
+	contains := func(xs []int, x int) bool {
+		for _, y := range xs {
+			if y == x {
+				return true
+			}
+		}
+		return false
 	}
 	// round robin: per selector, the instances served since the set last changed
 	streak := map[string][]int{}
-	resetStreaks := func() { streak = map[string][]int{} }
-	type pendingWait struct {
-		obs *RegObs
-		via string
-	}
-	var waits []pendingWait
-	for _, o := range tr.Reg {
+	lastSet := map[string]string{}
+	for j, o := range tr.Reg {
 		op := c.Reg[o.Op]
 		switch op.Kind {
-		case "open":
-			model = append(model, &tun{key: keyOf(op.Key), open: true})
-			resetStreaks()
-			// pending waits that match must have been released by now
-			for _, pw := range waits {
-				if pw.obs.Returned < 0 || pw.obs.Returned > o.Step+1 {
-					if len(openSet(pw.via)) > 0 && pw.obs.Code != CodeNil {
-						// judged at the end, when its final result is known
-					}
+		case "all":
+			must, maybe := sets(j, "all")
+			for _, i := range must {
+				if !contains(o.All, i) {
+					add("registry_differs_from_open_tunnels", o.Step, "op %d: AllReverseTunnels() lists tunnels %v; open tunnel %d is missing (open: %v, in transition: %v)", o.Op, o.All, i, must, maybe)
 				}
 			}
-		case "close_handler", "close_stop", "close_ctx", "close_break":
-			if op.Tun < len(model) {
-				model[op.Tun].open = false
+			for _, i := range o.All {
+				if !contains(must, i) && !contains(maybe, i) {
+					add("registry_differs_from_open_tunnels", o.Step, "op %d: AllReverseTunnels() lists tunnel %d, which is not open (open: %v, in transition: %v)", o.Op, i, must, maybe)
+				}
 			}
-			resetStreaks()
-		case "all":
-			want := openSet("all")
-			if fmt.Sprint(want) != fmt.Sprint(append([]int{}, o.All...)) && !(len(want) == 0 && len(o.All) == 0) {
-				add("registry_differs_from_open_tunnels", o.Step, "op %d: AllReverseTunnels() lists tunnels %v; the open tunnels are %v", o.Op, o.All, want)
-			}
-			if o.AllDone > 0 {
+			if o.AllDone > 0 && len(maybe) == 0 {
 				add("registry_lists_finished_tunnel", o.Step, "op %d: AllReverseTunnels() lists %d channel(s) that are already done", o.Op, o.AllDone)
 			}
 		case "ready":
-			want := len(openSet(op.Via)) > 0
-			if o.Bool != want {
-				add("ready_wrong", o.Step, "op %d: Ready() via %s = %v; open matching tunnels: %v", o.Op, op.Via, o.Bool, openSet(op.Via))
+			must, maybe := sets(j, op.Via)
+			if len(must) > 0 && !o.Bool {
+				add("ready_wrong", o.Step, "op %d: Ready() via %s = false; open matching tunnels: %v", o.Op, op.Via, must)
+			}
+			if len(must)+len(maybe) == 0 && o.Bool {
+				add("ready_wrong", o.Step, "op %d: Ready() via %s = true; no matching tunnel is open or in transition", o.Op, op.Via)
 			}
 		case "wait":
-			set := openSet(op.Via)
-			if len(set) > 0 {
-				if op.Ms > 0 && (o.Returned != o.Step || o.Code != CodeNil) {
-					add("wait_for_ready_blocks_although_ready", o.Step, "op %d: WaitForReady via %s with open tunnels %v returned at step %d with %q", o.Op, op.Via, set, o.Returned, o.Err)
+			must, maybe := sets(j, op.Via)
+			immediate := o.RetOp == o.Op && o.Returned >= 0
+			if len(must) > 0 && op.Ms > 0 && !(immediate && o.Code == CodeNil) {
+				add("wait_for_ready_blocks_although_ready", o.Step, "op %d: WaitForReady via %s with open tunnels %v did not return nil at once (returned during op %d with %q)", o.Op, op.Via, must, o.RetOp, o.Err)
+			}
+			if len(must)+len(maybe) == 0 && immediate && o.Code == CodeNil {
+				add("wait_for_ready_returns_although_not_ready", o.Step, "op %d: WaitForReady via %s returned nil at once although no matching tunnel is open", o.Op, op.Via)
+			}
+			if o.Returned < 0 {
+				add("wait_for_ready_never_returned", o.Step, "op %d: WaitForReady via %s (timeout %d ms) never returned", o.Op, op.Via, op.Ms)
+				break
+			}
+			// it must be released, with nil, by the first later moment at which a matching tunnel is open
+			everPossible := len(must)+len(maybe) > 0
+			for k := j + 1; k < len(tr.Reg); k++ {
+				if o.RetOp >= 0 && o.RetOp < k {
+					break
 				}
-			} else {
-				if o.Returned == o.Step && o.Code == CodeNil {
-					add("wait_for_ready_returns_although_not_ready", o.Step, "op %d: WaitForReady via %s returned nil at once although no matching tunnel is open", o.Op, op.Via)
+				m, mb := sets(k, op.Via)
+				if len(m)+len(mb) > 0 {
+					everPossible = true
 				}
-				waits = append(waits, pendingWait{o, op.Via})
+				if len(m) > 0 && tr.Reg[k].VMs-o.VMs < op.Ms {
+					if !(o.RetOp == k && o.Code == CodeNil) {
+						add("wait_for_ready_not_released", tr.Reg[k].Step, "op %d: WaitForReady via %s was pending when tunnel(s) %v were open after op %d, yet it returned during op %d with %q", o.Op, op.Via, m, k, o.RetOp, o.Err)
+					}
+					break
+				}
+			}
+			if o.Code == CodeNil && !everPossible && o.RetOp < len(tr.Reg) {
+				add("wait_for_ready_returns_although_not_ready", o.Returned, "op %d: WaitForReady via %s returned nil although no matching tunnel was open at any time until then", o.Op, op.Via)
 			}
 		case "rpc":
-			set := openSet(op.Via)
+			must, maybe := sets(j, op.Via)
+			key := fmt.Sprint(must)
+			if len(maybe) > 0 {
+				// a tunnel in transition may be picked, may fail the RPC, and perturbs the rotation
+				delete(streak, op.Via)
+				lastSet[op.Via] = ""
+				if o.Instance >= 0 && !contains(must, o.Instance) && !contains(maybe, o.Instance) {
+					add("rpc_routed_to_wrong_tunnel", o.Step, "op %d: RPC via %s was served by tunnel %d; open: %v, in transition: %v", o.Op, op.Via, o.Instance, must, maybe)
+				}
+				break
+			}
+			if lastSet[op.Via] != key {
+				delete(streak, op.Via)
+				lastSet[op.Via] = key
+			}
 			switch {
-			case len(set) == 0:
+			case len(must) == 0:
 				if o.Code != 14 {
 					add("rpc_without_tunnel_not_unavailable", o.Step, "op %d: RPC via %s with no matching open tunnel returned code %d (%s), instance %d", o.Op, op.Via, o.Code, o.Err, o.Instance)
 				}
 			default:
 				if o.Code != CodeNil {
-					add("routed_rpc_failed", o.Step, "op %d: RPC via %s with open tunnels %v failed: code %d (%s)", o.Op, op.Via, set, o.Code, o.Err)
+					add("routed_rpc_failed", o.Step, "op %d: RPC via %s with open tunnels %v failed: code %d (%s)", o.Op, op.Via, must, o.Code, o.Err)
 					break
 				}
-				ok := false
-				for _, i := range set {
-					if i == o.Instance {
-						ok = true
-					}
-				}
-				if !ok {
-					add("rpc_routed_to_wrong_tunnel", o.Step, "op %d: RPC via %s was served by tunnel %d; the open matching tunnels are %v", o.Op, op.Via, o.Instance, set)
+				if !contains(must, o.Instance) {
+					add("rpc_routed_to_wrong_tunnel", o.Step, "op %d: RPC via %s was served by tunnel %d; the open matching tunnels are %v", o.Op, op.Via, o.Instance, must)
 				}
 				// n consecutive RPCs over a stable set of n tunnels use each exactly once
-				s := append(streak[op.Via], o.Instance)
-				streak[op.Via] = s
-				n := len(set)
-				if len(s) >= n {
+				sk := append(streak[op.Via], o.Instance)
+				streak[op.Via] = sk
+				n := len(must)
+				if len(sk) >= n {
 					seen := map[int]bool{}
-					for _, x := range s[len(s)-n:] {
+					for _, x := range sk[len(sk)-n:] {
 						seen[x] = true
 					}
 					if len(seen) != n {
-						add("round_robin_uneven", o.Step, "op %d: the last %d RPCs via %s over the stable set %v were served by %v", o.Op, n, op.Via, set, s[len(s)-n:])
+						add("round_robin_uneven", o.Step, "op %d: the last %d RPCs via %s over the stable set %v were served by %v", o.Op, n, op.Via, must, sk[len(sk)-n:])
 					}
 				}
 			}
+		default:
+			// opens, closes and releases change the set: rotations start over
+			streak = map[string][]int{}
+			lastSet = map[string]string{}
 		}
 	}
-	// waits that started with an empty set: nil only if a matching tunnel opened later, else the context error
-	for _, pw := range waits {
-		opened := false
-		for j := pw.obs.Op + 1; j < len(c.Reg); j++ {
-			if c.Reg[j].Kind == "open" {
-				k := keyOf(c.Reg[j].Key)
-				if pw.via == "all" || pw.via == "key:"+k {
-					opened = true
-				}
-			}
-		}
-		op := c.Reg[pw.obs.Op]
-		switch {
-		case pw.obs.Returned < 0:
-			add("wait_for_ready_never_returned", pw.obs.Step, "op %d: WaitForReady via %s (timeout %d ms) never returned", pw.obs.Op, pw.via, op.Ms)
-		case pw.obs.Code == CodeNil && !opened:
-			add("wait_for_ready_returns_although_not_ready", pw.obs.Returned, "op %d: WaitForReady via %s returned nil although no matching tunnel ever opened afterwards", pw.obs.Op, pw.via)
-		}
-	}
-	// callbacks: exactly open then close per tunnel
+	// callbacks: exactly one open followed by exactly one close per tunnel whose handler ran
 	for _, t := range tr.Tunnels {
-		if !t.Opened {
+		n := len(t.Callbacks)
+		if n == 0 {
 			continue
 		}
-		if len(t.Callbacks) != 2 || !strings.HasPrefix(t.Callbacks[0], "open@") || !strings.HasPrefix(t.Callbacks[1], "close@") {
+		if n != 2 || !strings.HasPrefix(t.Callbacks[0], "open@") || !strings.HasPrefix(t.Callbacks[1], "close@") {
 			add("callbacks_wrong", 0, "tunnel %d produced callbacks %v; want exactly one open followed by one close", t.Idx, t.Callbacks)
+		}
+	}
+	for _, t := range tr.Tunnels {
+		if t.Opened && len(t.Callbacks) == 0 {
+			add("callbacks_wrong", 0, "tunnel %d was open yet produced no callbacks", t.Idx)
 		}
 	}
 	return vs
@@ -394,6 +586,55 @@ func labelsC12(c *Case, tr *Trace) []string {
 	}
 	for _, y := range tr.Yields {
 		ls = append(ls, "yield="+y.Point)
+	}
+	return ls
+}
+
+// ntC12Win: some registry query ran while an open or close was held half-way.
+func ntC12Win(c *Case, tr *Trace) bool {
+	for _, o := range tr.Reg {
+		if o.Parked {
+			switch o.Kind {
+			case "rpc", "ready", "wait", "all":
+				return true
+			}
+		}
+	}
+	return false
+}
+
+func labelsC12Win(c *Case, tr *Trace) []string {
+	ls := labelsC12(c, tr)
+	seen := map[string]bool{}
+	for _, o := range tr.Reg {
+		for _, p := range o.ParkedAt {
+			if !seen[p] {
+				seen[p] = true
+				ls = append(ls, "parked="+p)
+			}
+		}
+	}
+	// a tunnel whose close began before its registration finished
+	doa, waitInClose := false, false
+	for j, o := range tr.Reg {
+		for _, t := range o.T {
+			if t.Started && t.CloseTrig && !t.OpenCbEnd {
+				doa = true
+			}
+		}
+		if o.Kind == "wait" && j > 0 {
+			for _, t := range tr.Reg[j-1].T {
+				if t.Started && t.CloseTrig && !t.HandlerDone {
+					waitInClose = true
+				}
+			}
+		}
+	}
+	if doa {
+		ls = append(ls, "closed_before_registered")
+	}
+	if waitInClose {
+		ls = append(ls, "wait_during_close")
 	}
 	return ls
 }
